@@ -507,6 +507,67 @@ batches without archiving their checkpoints (known finding C13-archive-not-expor
 the harness's `reimport` lines. -/
 def reimport (s : St) : St := { s with usage := fun _ => none, archive := [] }
 
+/-! ### deployments (compass upgrades) and what the chain publishes for signing (C13)
+
+A batch's signing bytes are a digest over the batch AND the remote deployment's id (`SmartContractUniqueID`): they are
+computed with the id in force when the batch is built or re-estimated, STORED in the batch (`BytesToSign`) and archived;
+the queries validators poll (`LastPendingBatchRequestByAddr`, `BatchRequestByNonce`, `OutgoingTxBatches`,
+`LastPendingBatchForGasEstimation`) hand out the stored bytes.  `ConfirmBatch` and the evidence handler re-derive the
+digest from the batch with the id in force NOW.  `Dep` is that layer on top of `St` (whose `Ckpt` has no id). -/
+
+/-- signing bytes as they are: `(deployment id in the pre-image, batch checkpoint)` -/
+abbrev DCkpt := Nat × Ckpt
+
+structure Dep where
+  /-- the remote chain's current deployment id (`ChainInfo.SmartContractUniqueID`) -/
+  cur : Nat := 1
+  /-- every open batch with the deployment id its stored `BytesToSign` were computed with -/
+  stored : List (Batch × Nat) := []
+  /-- `PastEthSignatureCheckpoint`, with the deployment id of the pre-image -/
+  arch : List DCkpt := []
+  /-- batch confirmations `(validator, batch as it was when confirmed)`: a re-estimated batch is another value, its
+      confirmations are gone (`UpdateBatchGasEstimate` → `DeleteBatchConfirms`) -/
+  conf : List (Nat × Batch) := []
+deriving Repr
+
+def Dep.tagOf (d : Dep) (b : Batch) : Option Nat := (d.stored.find? (fun p => p.1 == b)).map (·.2)
+
+/-- after any step of the bridge: a batch that is new or whose content changed (built, re-estimated) has had its bytes
+    computed with the current id and archived; every other open batch keeps its stored bytes -/
+def Dep.sync (d : Dep) (bs : List Batch) : Dep :=
+  { d with stored := bs.map (fun b => (b, (d.tagOf b).getD d.cur)),
+           arch := (bs.filter (fun b => (d.tagOf b).isNone)).map (fun b => (d.cur, b.ckpt)) ++ d.arch }
+
+/-- everything the chain publishes for signing: the stored bytes of the open batches -/
+def Dep.published (d : Dep) : List DCkpt := d.stored.map (fun p => (p.2, p.1.ckpt))
+
+/-- `LastPendingBatchRequestByAddr`: the first open batch in store order that validator `v` has not confirmed, with its
+    STORED bytes -/
+def Dep.pendingFor (d : Dep) (bs : List Batch) (v : Nat) : Option (Batch × Nat) :=
+  match (batchOrder bs).find? (fun b => !(d.conf.contains (v, b))) with
+  | none => none
+  | some b => some (b, (d.tagOf b).getD d.cur)
+
+/-- `MsgConfirmBatch` by validator `v` with its registered key over the bytes `BatchRequestByNonce` publishes for batch
+    `(tok, nonce)`: verified against the digest re-derived with the CURRENT id -/
+def Dep.confirm (d : Dep) (bs : List Batch) (v tok nonce : Nat) : Dep × Res :=
+  match findBatch bs tok nonce with
+  | none => (d, .rejected)
+  | some b =>
+    if (d.tagOf b).getD d.cur != d.cur then (d, .rejected) else
+    if d.conf.contains (v, b) then (d, .rejected) else
+    ({ d with conf := (v, b) :: d.conf }, .ok)
+
+/-- `checkBadSignatureEvidenceInternal` with the deployment id: `c` is the submitted batch, `signed` the bytes the
+    submitted signature is really over, `key` the key that made it.  The handler derives the digest `(cur, c)`; an
+    archived digest is refused; a signature over other bytes recovers to an address nobody registered (ECDSA trusted). -/
+def evidenceD (s : St) (d : Dep) (c : Ckpt) (signed : DCkpt) (key : Nat) : St × Res :=
+  if d.arch.contains (d.cur, c) then (s, .rejected) else
+  if signed != (d.cur, c) then (s, .rejected) else
+  match lookupKey s.keys key with
+  | none => (s, .rejected)
+  | some v => if s.jailed.contains v then (s, .ok) else ({ s with jailed := v :: s.jailed }, .ok)
+
 /-! ### the contract registry of a remote chain (x/skyway/keeper/cosmos-originated.go)
 
 A transfer is escrowed in a *denom* but recorded (pool key, batch key) under the *contract* the denom is bound to at
